@@ -460,21 +460,31 @@ def rule_k6(repo):
     params = func.params()
     prf, seq = params[1], params[2]
     n_assign = 0
-    for n in cfg.nodes:
-        if not (n.kind == 'stmt' and isinstance(n.ast, ast.Assign) and any(is_name(t, 'res_th') for t in n.ast.targets)):
+    # the sequent's name: the variable compared with / stored into seq.th at the end
+    todo, seen_names = ['res_th'], set()
+    while todo:
+        name = todo.pop()
+        if name in seen_names:
             continue
-        n_assign += 1
-        values = [n.ast.value]
-        if isinstance(n.ast.value, ast.IfExp):
-            values = [n.ast.value.body, n.ast.value.orelse]
-        kinds = []
-        ok = True
-        for v in values:
-            k = _classify_source(repo, func, cfg, flow, n, v, seq)
-            kinds.append(k or 'UNTRUSTED: ' + src(v))
-            ok = ok and k is not None
-        res.add('%s :: Theory._check_proof_item :: res_th <- %s' % (THEORY, src(n.ast.value, 60)), ok,
-                ', '.join(kinds), '%s:%d' % (THEORY, n.lineno))
+        seen_names.add(name)
+        for n in cfg.nodes:
+            if not (n.kind == 'stmt' and isinstance(n.ast, ast.Assign) and any(is_name(t, name) for t in n.ast.targets)):
+                continue
+            if isinstance(n.ast.value, ast.Name) and flow.is_local(n.ast.value.id) and n.ast.value.id != seq:
+                todo.append(n.ast.value.id)       # `res_th = th`: judged where th is computed
+                continue
+            n_assign += 1
+            values = [n.ast.value]
+            if isinstance(n.ast.value, ast.IfExp):
+                values = [n.ast.value.body, n.ast.value.orelse]
+            kinds = []
+            ok = True
+            for v in values:
+                k = _classify_source(repo, func, cfg, flow, n, v, seq)
+                kinds.append(k or 'UNTRUSTED: ' + src(v))
+                ok = ok and k is not None
+            res.add('%s :: Theory._check_proof_item :: res_th <- %s' % (THEORY, src(n.ast.value, 60)), ok,
+                    ', '.join(kinds), '%s:%d' % (THEORY, n.lineno))
     # trust gate for evaluated macros
     evals = [n for n in cfg.nodes if n.kind == 'stmt' and any(
         isinstance(c, ast.Call) and call_attr(c) == 'eval' for c in ast.walk(n.ast))]
@@ -610,9 +620,15 @@ def rule_k10(repo):
     tables = set()
     for f in [subst] + list(subst.nested.values()):
         for r in ast.walk(f.node):
-            if isinstance(r, ast.Return) and isinstance(r.value, ast.Subscript):
-                pth = path_of(r.value.value) or ''
-                if pth == sp or pth.startswith(sp + '.'):
+            if not (isinstance(r, ast.Return) and r.value is not None):
+                continue
+            # an entry handed back as the result: table[k], table.get(k, t), `table[k] if k in table else t`
+            alts = [r.value.body, r.value.orelse] if isinstance(r.value, ast.IfExp) else [r.value]
+            for v in alts:
+                tb = v.value if isinstance(v, ast.Subscript) else (
+                    v.func.value if isinstance(v, ast.Call) and call_attr(v) == 'get' and v.args else None)
+                pth = (path_of(tb) or '') if tb is not None else ''
+                if pth and (pth == sp or pth.startswith(sp + '.')):
                     tables.add(pth[len(sp):])          # '' for inst[..], '.var_inst' for inst.var_inst[..]
     need(tables, 'Term.subst: no table of the instantiation is read')
     lifts = any(isinstance(c, ast.Call) and call_attr(c) in ('lift', 'incr_boundvars', 'shift') for c in ast.walk(subst.node))
@@ -720,14 +736,27 @@ def rule_k13(repo):
     generalised (assume ?x, forall_intr x gives ?x |- !x. x)."""
     from ..kinds import infeasible_edges
     res = RuleResult('C01.K13', 'abstract_over binds only leaves of the same kind as the variable it abstracts over', floor=2)
+    from ..normalize import conditional_expressions_as_branches, as_func
+    from ..inline import inlined
     f = repo.func(TERM, 'Term.abstract_over')
     rec = need(f.nested.get('rec'), 'Term.abstract_over: nested rec not found')
+    # `return Bound(n) if is_occurrence(s) else s`: the conditional as a branch, the local predicate read in place
+    rec = as_func(rec, conditional_expressions_as_branches(rec.node))
+    rec = inlined(rec, lambda h: h.parent is not None and h.name != 'rec')[0]
     cfg = cfg_of(rec.node)
     leaf, tvar = rec.params()[0], f.params()[1]
     binds = [r for r in cfg.return_nodes() if isinstance(r.ast.value, ast.Call) and call_name(r.ast.value) == 'Bound']
     need(binds, 'Term.abstract_over.rec: no `return Bound(n)`')
+
+    def same_kind(e, pol):
+        # <leaf>.ty == <variable>.ty holds on this side of the test
+        for op, a, b in comparison_holding(e, pol):
+            if op is ast.Eq and {path_of(a), path_of(b)} == {leaf + '.ty', tvar + '.ty'}:
+                return True
+        return False
     for k_leaf, k_t in (('svar', 'var'), ('var', 'svar')):
-        skip = infeasible_edges(cfg, lambda e: is_name(e, leaf), k_leaf) | infeasible_edges(cfg, lambda e: is_name(e, tvar), k_t)
+        skip = infeasible_edges(cfg, lambda e: is_name(e, leaf), k_leaf) | infeasible_edges(cfg, lambda e: is_name(e, tvar), k_t) | \
+            cfg.establishing_edges(same_kind)          # the two kinds differ in the case considered
         reach = cfg.reach_from(cfg.entry, skip_edges=skip)
         hit = [r for r in binds if r.id in reach]
         res.add('%s :: Term.abstract_over :: leaf(%s) vs variable(%s)' % (TERM, k_leaf, k_t), not hit,
